@@ -111,7 +111,8 @@ def run_stream(mod, st, rep, tier, seed, pool, extra_round=0, with_model=False):
         res = [_work(a) for a in args]
     kf = common.known_findings()
     open_ids = {f['id']: f for f in kf.get('open', []) if f.get('property') == mod.ID}
-    for c, (out, viol) in zip(cases, res):
+    deferred = []      # violations matching a known finding whose routing also needs the MODEL to reproduce the output
+    for ci, (c, (out, viol)) in enumerate(zip(cases, res)):
         rep.evaluations += 1
         rep.oracle_evals += 1
         for k in st.classify(c, out):
@@ -124,6 +125,9 @@ def run_stream(mod, st, rep, tier, seed, pool, extra_round=0, with_model=False):
         for v in viol:
             fid = st.finding(c, out, v)
             if fid is not None and fid in open_ids:
+                if getattr(st, 'finding_needs_model', False) and st.model and (extra_round == 0 or with_model):
+                    deferred.append((ci, fid, v))
+                    continue
                 msg = '%s: %s' % (fid, open_ids[fid].get('what', ''))
                 if msg not in rep.known:
                     rep.known.append(msg)
@@ -141,6 +145,18 @@ def run_stream(mod, st, rep, tier, seed, pool, extra_round=0, with_model=False):
         bad_by_code = {}
         for idx, code in r['bad']:
             bad_by_code.setdefault(code, []).append(idx)
+        # a known finding is behaviour of the code the model was validated against: the routing is honoured only where the model
+        # reproduces the implementation's output on that very case; otherwise the violation is new
+        badset = {idx for idx, _ in r['bad']}
+        for ci, fid, v in deferred:
+            if ci in badset or r['errors']:
+                rep.add_violation('property-violated', '[%s] %s [matches the signature of %s, but the model of the validated code does not reproduce this output]'
+                                  % (st.name, v, fid), dict(stream=st.name, case=cases[ci], impl_output=res[ci][0]))
+            else:
+                msg = '%s: %s' % (fid, open_ids[fid].get('what', ''))
+                if msg not in rep.known:
+                    rep.known.append(msg)
+        deferred = []
         for code, idxs in sorted(bad_by_code.items()):
             idx = idxs[0]
             c, (out, viol) = cases[idx], res[idx]
